@@ -163,6 +163,8 @@ func runC06(c *an.Ctx, p *an.Prog, thorough bool) {
 	// every refused request gets a status: the one library call on the request path that panics on attacker-chosen
 	// input (AEAD.Open with a nonce of the wrong length) is guarded
 	aeadOpenPrecondition(c, p, "C06.7")
+	// "a valid, unexpired session token": the window test of the session check (the rule instance of C07.4)
+	sessionWindowRule(c, p, "C06.8")
 	roots := frontendRoots(p)
 	var handlers []Root
 	for _, r := range roots {
